@@ -243,7 +243,9 @@ inline std::string prog_generator(vf::rng &r, std::string &desc, long &frames, l
                 int sum = 0;
                 for (int i = 0; i <= n + 1; i++) {
                     int a = i + 1;
-                    if (!g.next(a)) break;
+                    // the argument is passed as a variable or as a temporary (both are documented forms)
+                    bool more = (i + n) % 2 ? (bool)g.next(a) : (bool)g.next(i + 1);
+                    if (!more) break;
                     sum += a; got++;
                     if (g.value() != sum) { err = "generator with argument yielded " + std::to_string(g.value()) + " instead of " + std::to_string(sum); break; }
                 }
